@@ -30,6 +30,14 @@
    * U  C03_route_valid_no_repair / C03_route_valid_fault_free: the branch without repair, kept as corollaries.
    * R  C03_repair_duplicate_child_orig_refuted: the repair step of the code as found (before c75fe85)
         attached a chip twice; witness replayed on the real code.
+   * U  C03_route_all_working (every chip of the tree is a working chip), C03_leaf_routes_in_range (leaf routes are
+        members of Routes), C03_route_nets_valid_at (order hypothesis at the net's own stream position).
+   * R  C03_childless_node_not_a_sink_refuted: a node without children need not be a sink's chip after a repair.
+   Not covered by a theorem (harness only): the multiplicity of a sink's leaves (ValidTree's leaf clauses are
+   set-level; route() appends a sink's leaves once per occurrence of the sink in net.sinks); the bulk random
+   streams; model comparison on the 1200-2500-hop routes (validator only).  Definitions used in the statements
+   below that live in Proofs/ rather than Spec/: detour_ok, cnt, Hstar, fhops, leafless, order_ok(_route), net_ok,
+   nets_ok_from, tree_valid_for, path_good (bookkeeping predicates of the intermediate theorems).
    The validators stay in the check: V certifies every real output of route() independently of the model.
    The model (Model/Route.v) is compared with rig on every run: exact tree equality for ner_net and for the
    final tree of route(), with the random module scripted. *)
@@ -38,7 +46,7 @@ From Coq Require Import ZArith List Bool.
 Require Import Rig.Model.Base Rig.Model.Route Rig.Spec.Route Rig.Proofs.Route Rig.Proofs.RouteMain
         Rig.Proofs.RouteFull Rig.Proofs.RouteCopy Rig.Proofs.RouteRepair Rig.Proofs.RouteAstar
         Rig.Proofs.RouteSever Rig.Proofs.RouteSplice Rig.Proofs.RouteAvoid Rig.Proofs.RouteValid
-        Rig.Model.RouteMulti Rig.Generated.GenRouteShape Rig.Proofs.RouteMulti.
+        Rig.Model.RouteMulti Rig.Generated.GenRouteShape Rig.Proofs.RouteMulti Rig.Proofs.RouteWorking.
 Import ListNotations.
 Open Scope Z_scope.
 
@@ -205,6 +213,40 @@ Theorem C03_route_connected_succeeds :
               ValidTree m src (sink_reqs sinks pl cons allocs) t.
 Proof. exact route_connected_succeeds. Qed.
 
+(* U: "use only live hardware" in full: EVERY chip of the returned tree is a working chip (ValidTree says so only
+   of the chips a hop leaves), under the hypotheses of C03_route_valid. *)
+Theorem C03_route_all_working :
+  forall m source sinks dests pl cons allocs radius s order src t,
+    1 <= rm_w m -> 1 <= rm_h m ->
+    zassoc source pl = Some src -> working_chip m src ->
+    Forall (working_chip m) dests -> stream_ok s ->
+    (forall v, In v sinks -> exists c, zassoc v pl = Some c /\ In c dests) ->
+    (forall v a b, In v sinks -> zassoc v allocs = Some (a, b) -> 0 <= a /\ b <= 18) ->
+    order_ok_route m src dests radius s order ->
+    route_net m source sinks dests pl cons allocs radius s order = Ok t ->
+    forall x, In x (chips t) -> working_chip m x.
+Proof. exact route_all_working. Qed.
+
+(* U: the routes of the leaves are members of Routes (0..23) when the endpoint constraints name members of Routes
+   and the core allocations lie within 0..18 -- for any tree satisfying ValidTree for route()'s sink requirements. *)
+Theorem C03_leaf_routes_in_range :
+  forall m src sinks pl cons allocs t,
+    ValidTree m src (sink_reqs sinks pl cons allocs) t ->
+    (forall v r, In (v, r) cons -> 0 <= r < 24) ->
+    (forall v a b, In v sinks -> zassoc v allocs = Some (a, b) -> 0 <= a /\ b <= 18) ->
+    forall c r v, In (c, Some r, v) (tree_leaves t) -> 0 <= r < 24.
+Proof. exact leaf_routes_in_range. Qed.
+
+(* R: "every node without children is some sink's chip" is NOT a consequence: after a repair a node whose only
+   child was a dead chip stays in the tree without children (packets sent there are dropped; no sink is missed).
+   Witness: 3 x 3 torus, chip (0,0) dead, source (0,2), sink on (1,0); the validator accepts the tree. *)
+Theorem C03_childless_node_not_a_sink_refuted :
+  route_net ex_childless_machine 0 [1] [(1, 0)] [(0, (0, 2)); (1, (1, 0))] [] [(1, (1, 2))] 20 [0] None
+  = Ok (RNode (0, 2) [(Some 5, RNode (0, 1) []); (Some 1, RNode (1, 0) [(Some 7, RLeaf 1)])])
+  /\ check_tree ex_childless_machine (0, 2) (sink_reqs [1] [(0, (0, 2)); (1, (1, 0))] [] [(1, (1, 2))])
+                (RNode (0, 2) [(Some 5, RNode (0, 1) []); (Some 1, RNode (1, 0) [(Some 7, RLeaf 1)])]) = true.
+Proof. exact childless_node_not_a_sink_refuted. Qed.
+
 (* U: the loop of route() over the nets of one call (Model/RouteMulti.v; its shape is re-extracted from the
    source on every run, C03_route_shape).  Independence: the i-th tree is what route_net returns for that net
    alone, started at a stream position that depends on the earlier nets' endpoints only. *)
@@ -225,6 +267,25 @@ Theorem C03_route_nets_valid :
                 Forall2 (tree_valid_for m pl cons allocs) nets ts) \/
     (route_nets m nets pl cons allocs radius s = Failed 0 /\ ~ Connected m).
 Proof. exact route_nets_valid. Qed.
+
+(* U: the same with the iteration order of each net's broken_links required to be an enumeration of that set only
+   at the stream position the net actually starts at (nets_ok_from threads the stream through ner_net_rest; the
+   hypothesis of C03_route_nets_valid, which asks it for every stream, implies it: nets_ok_from_of_net_ok), and with
+   "every chip of every tree is a working chip". *)
+Theorem C03_route_nets_valid_at :
+  forall m nets pl cons allocs radius s,
+    1 <= rm_w m -> 1 <= rm_h m -> nets_ok_from m pl allocs radius s nets -> stream_ok s ->
+    (exists ts, route_nets m nets pl cons allocs radius s = Ok ts /\
+                Forall2 (tree_valid_for m pl cons allocs) nets ts /\
+                Forall (fun t => forall x, In x (chips t) -> working_chip m x) ts) \/
+    (route_nets m nets pl cons allocs radius s = Failed 0 /\ ~ Connected m).
+Proof. exact route_nets_valid_at. Qed.
+
+Theorem C03_nets_ok_from_of_net_ok :
+  forall m pl allocs radius nets s,
+    Forall (net_ok m pl allocs radius) nets -> stream_ok s -> 1 <= rm_w m -> 1 <= rm_h m ->
+    nets_ok_from m pl allocs radius s nets.
+Proof. exact nets_ok_from_of_net_ok. Qed.
 
 (* U: a Machine object re-used for several calls with in-place edits of dead_links / dead_chips in between: every
    call is valid with respect to the fault sets as they are AT THAT CALL (mk = the edits so far applied to m). *)
@@ -255,6 +316,8 @@ Theorem C03_route_shape :
   machine_attributes = ["chip_resource_exceptions"; "chip_resources"; "dead_chips"; "dead_links"; "height"; "width"]%string.
 Proof. exact route_shape. Qed.
 
+(* (This input also inhabits the re-parenting branch of C03_repair_step_tree: the detour of the repaired code
+   runs through nodes of the orphaned subtree, case `In q cc`, and the result is accepted by the validator.) *)
 (* R: the repair of the code as found (model avoid_dead_links_orig) on a connected 3 x 4 mesh with five
    further dead links: the tree of ner_net is repaired into a tree that lists chip (1, 0) twice; the
    repaired code returns a tree the validator accepts. *)
